@@ -1,5 +1,5 @@
 --------------------------- MODULE MC_Evaluator ---------------------------
-EXTENDS Evaluator
+EXTENDS Evaluator, Json
 \* four trees: 1 satisfies everything, 2 misses a hard constraint, 3 misses the repetition bound, 4 nothing
 T == 1..4
 mcSatH == [t \in T |-> CASE t = 1 -> {1, 2} [] t = 2 -> {1} [] t = 3 -> {1, 2} [] OTHER -> {}]
@@ -9,4 +9,5 @@ KeyCollide == [t \in T |-> IF t = 4 THEN 1 ELSE t]     \* tree 4 hashes like tre
 NoEdit == [t \in T |-> t]
 Edits == [t \in T |-> CASE t = 1 -> 2 [] t = 2 -> 1 [] t = 3 -> 4 [] OTHER -> 3]
 Bound == Len(emitLog) <= 3
+EmitHist == ~Record \/ Len(hist) < MaxOps \/ PrintT(<<"HIST", ToJson(hist)>>)
 =============================================================================
